@@ -170,15 +170,17 @@ def fillnodata_downstream(idxs_ds, seq, data, nodata, how="max"):
         infilled data
     """
     data_out = data.copy()
+    filled = data != nodata  # True for cells holding an (in)filled value
     # TODO simplify max/min/sum
     assert how in ["min", "max", "sum"]
     for idx0 in seq[::-1]:  # up- to downstream
         idx_ds = idxs_ds[idx0]
         if idx_ds == idx0:  # pit
             continue
-        if data[idx_ds] == nodata and data_out[idx0] != nodata:
-            if data_out[idx_ds] == nodata:
+        if data[idx_ds] == nodata and filled[idx0]:
+            if not filled[idx_ds]:
                 data_out[idx_ds] = data_out[idx0]
+                filled[idx_ds] = True
             elif how == "max":
                 data_out[idx_ds] = max(data_out[idx0], data_out[idx_ds])
             elif how == "min":
